@@ -21,10 +21,10 @@ def na(pid, reason):
 
 
 sys.path.insert(0, HERE)
-from tools.manifest_table import fill, ADDENDA, ADDENDA2, ADDENDA3  # noqa: E402
+from tools.manifest_table import fill, ADDENDA, ADDENDA2, ADDENDA3, ADDENDA4  # noqa: E402
 
 fill(claim, na)
-for _pid, _extra in list(ADDENDA.items()) + list(ADDENDA2.items()) + list(ADDENDA3.items()):
+for _pid, _extra in list(ADDENDA.items()) + list(ADDENDA2.items()) + list(ADDENDA3.items()) + list(ADDENDA4.items()):
     if _pid in CLAIMED:
         _t = CLAIMED[_pid]
         CLAIMED[_pid] = (_t[0], _t[1].rstrip() + " " + _extra, _t[2], _t[3])
